@@ -126,7 +126,8 @@ impl Knobs {
       ModeSer::Pct(d, e) => Mode::Pct { depth: d, est_steps: e },
     };
     c.spurious_rate = self.spurious_rate;
-    c.rates = FaultRates { cas_weak: self.cas_weak, spurious_park_return: self.park_return };
+    // (half of all runs, decided by the run's seed: a knob, not a fault)
+    c.rates = FaultRates { cas_weak: self.cas_weak, spurious_park_return: self.park_return, post_write_yield: self.seed & 1 == 0 };
     c.max_steps = self.max_steps as usize;
     c.record_trace = record_trace;
     c
